@@ -1562,6 +1562,11 @@ func runCompPlan(t *testing.T, planAny any, ctl Ctl) *Result {
 		})
 		end := s.Run(func() bool { return s.TaskDone("actor:config") })
 		finishSched(res, s, end)
+		if bl := blockedHandlers(s); len(bl) > 0 {
+			// notification handlers of the cleanup interval that wait for a cleanup task which will
+			// never take what they bring (it has ended): they stay behind for ever
+			res.violate("C19.d", "interval-handler-left-blocked"+map[bool]string{true: " (" + p.Destroy + ")", false: ""}[p.Destroy != ""], "%d notification handler(s) of cache.cleanup_interval are blocked for good: %s [history: %s]", len(bl), strings.Join(bl, ", "), history)
+		}
 		for _, pm := range s.Panics {
 			res.violate("C18.a", "component-panicked: "+panicClass(pm), "a task following the configuration panicked: %s [history: %s]", pm, history)
 		}
